@@ -291,16 +291,16 @@ impl VisitMut for Rw {
                                     loop {
                                         match rest.find('{') {
                                             None => {
-                                                if !rest.is_empty() {
-                                                    let id = lit_id(rest);
-                                                    stmts.push(parse_quote!(#recv.lit(#id);));
+                                                // literal text is emitted byte by byte: the trace does not depend on how the
+                                                // text is split over format strings
+                                                for b in rest.as_bytes() {
+                                                    stmts.push(parse_quote!(#recv.ch(#b);));
                                                 }
                                                 break;
                                             }
                                             Some(i) => {
-                                                if i > 0 {
-                                                    let id = lit_id(&rest[..i]);
-                                                    stmts.push(parse_quote!(#recv.lit(#id);));
+                                                for b in rest[..i].as_bytes() {
+                                                    stmts.push(parse_quote!(#recv.ch(#b);));
                                                 }
                                                 let close = match rest[i..].find('}') {
                                                     Some(c) => i + c,
@@ -321,7 +321,7 @@ impl VisitMut for Rw {
                                                     None => {
                                                         // named / captured argument such as {symbol}
                                                         if let Ok(id) = syn::parse_str::<syn::Ident>(inside) {
-                                                            stmts.push(parse_quote!(#recv.lit(#id);));
+                                                            stmts.push(parse_quote!(#recv.disp(&(#id));));
                                                         } else {
                                                             ok = false;
                                                         }
@@ -504,6 +504,26 @@ impl VisitMut for Rw {
                     *e = parse_quote!(core::ops::Neg::neg(#x));
                     self.bump("R9_neg_to_ufcs");
                 }
+            }
+            Expr::MethodCall(m) if m.method == "neg" && m.args.is_empty() && m.turbofish.is_none() && !self.is_int(&m.receiver) => {
+                // `x.neg()` is `Neg::neg(x)` (the only `neg` in scope in the crate is core::ops::Neg)
+                let x = (*m.receiver).clone();
+                *e = parse_quote!(core::ops::Neg::neg(#x));
+                self.bump("R9_neg_method_to_ufcs");
+            }
+            Expr::MethodCall(m) if m.args.len() == 1 && m.turbofish.is_none() && ["add", "sub", "mul", "div"].contains(&m.method.to_string().as_str()) && !self.is_int(&m.receiver) => {
+                let (tr, mm) = match m.method.to_string().as_str() {
+                    "add" => ("Add", "add"),
+                    "sub" => ("Sub", "sub"),
+                    "mul" => ("Mul", "mul"),
+                    _ => ("Div", "div"),
+                };
+                let tr_id = syn::Ident::new(tr, proc_macro2::Span::call_site());
+                let m_id = syn::Ident::new(mm, proc_macro2::Span::call_site());
+                let x = (*m.receiver).clone();
+                let y = m.args[0].clone();
+                *e = parse_quote!(core::ops::#tr_id::#m_id(#x, #y));
+                self.bump("R9_op_method_to_ufcs");
             }
             Expr::Closure(_) => {
                 if self.err.is_none() {
